@@ -180,6 +180,8 @@ pub struct Config {
     pub float_search_trials: u32,
     /// contract stubs in force (names), see `stub_complex1`
     pub stubs: Vec<String>,
+    /// read the f64 literals nearest to pi, pi/2, ... as those numbers (libm axioms speak about the true pi)
+    pub named_constants: bool,
 }
 
 impl Default for Config {
@@ -200,6 +202,7 @@ impl Default for Config {
             float_search: (1.0e-3, 1.0e3),
             float_search_trials: 4000,
             stubs: Vec::new(),
+            named_constants: false,
         }
     }
 }
@@ -583,7 +586,9 @@ impl Engine {
             Node::Max(a, b) => self.eval_f(*a, asg, memo).max(self.eval_f(*b, asg, memo)),
             Node::Min(a, b) => self.eval_f(*a, asg, memo).min(self.eval_f(*b, asg, memo)),
             Node::Sqrt(a) => self.eval_f(*a, asg, memo).sqrt(),
-            Node::Fun1(..) | Node::Fun2(..) => f64::NAN, // uninterpreted: no numeric shortcut
+            // the real functions themselves are a model of every axiom used for the uninterpreted symbols
+            Node::Fun1(f, a) => { let x = self.eval_f(*a, asg, memo); match *f { "sin" => x.sin(), "cos" => x.cos(), "tan" => x.tan(), "sinh" => x.sinh(), "cosh" => x.cosh(), "tanh" => x.tanh(), "exp" => x.exp(), "ln" => x.ln(), "asin" => x.asin(), "acos" => x.acos(), "atan" => x.atan(), _ => f64::NAN } }
+            Node::Fun2(f, a, b) => { let (x, y) = (self.eval_f(*a, asg, memo), self.eval_f(*b, asg, memo)); match *f { "atan2" => x.atan2(y), "pow" => x.powf(y), _ => f64::NAN } }
         };
         memo.insert(i, v);
         v
@@ -624,8 +629,8 @@ impl Engine {
             if !seen.insert(i) { continue; }
             match &self.nodes[i as usize] {
                 Node::Add(a, b) | Node::Sub(a, b) | Node::Mul(a, b) | Node::Div(a, b) | Node::Max(a, b) | Node::Min(a, b) => { stack.push(*a); stack.push(*b); }
-                Node::Neg(a) | Node::Abs(a) | Node::Sqrt(a) => stack.push(*a),
-                Node::Fun1(..) | Node::Fun2(..) => return None,
+                Node::Neg(a) | Node::Abs(a) | Node::Sqrt(a) | Node::Fun1(_, a) => stack.push(*a),
+                Node::Fun2(_, a, b) => { stack.push(*a); stack.push(*b); }
                 Node::Var(_) | Node::Fresh(_) => vars.push(i),
                 _ => {}
             }
@@ -674,13 +679,27 @@ impl Engine {
                 _ => {}
             }
         }
+        let libm1 = ["sin", "cos", "sinh", "cosh", "exp", "ln"];
+        if !funs.is_empty() {
+            for f in libm1 { funs.insert((f, 1)); }
+            s.push_str("(declare-const pi Real)\n(assert (< 3.14159265358979323 pi))\n(assert (< pi 3.14159265358979324))\n");
+        }
         for (f, ar) in &funs {
             s.push_str(&format!("(declare-fun uf_{} ({}) Real)\n", f, if *ar == 1 { "Real" } else { "Real Real" }));
         }
         let mut vars = Vec::new();
+        let named = self.cfg.named_constants && !funs.is_empty();
         let nm = |i: u32| -> String {
             match &self.nodes[i as usize] {
-                Node::Const(r) => r.smt(),
+                Node::Const(r) => {
+                    if named {
+                        // a literal that is the double nearest to pi, pi/2, ... stands for that number
+                        for (k, txt) in [(1.0, "pi"), (0.5, "(/ pi 2.0)"), (0.25, "(/ pi 4.0)"), (2.0, "(* 2.0 pi)"), (-1.0, "(- pi)"), (-0.5, "(- (/ pi 2.0))")] {
+                            if Rat::from_f64(std::f64::consts::PI * k) == Some(*r) { return txt.to_string(); }
+                        }
+                    }
+                    r.smt()
+                }
                 Node::FConst(b) => {
                     let x = f64::from_bits(*b);
                     match Rat::from_f64(x) { Some(r) => r.smt(), None => format!("fconst_{}", b) }
@@ -727,6 +746,7 @@ impl Engine {
             }
         }
         s.push_str(&side);
+        if !funs.is_empty() { s.push_str(&self.libm_axioms(&seen, &nm)); }
         // redundant lemmas for complex division: when u = (a c + b d)/(c^2+d^2) and v = (b c - a d)/(c^2+d^2)
         // both occur, then (u + i v)(c + i d) = a + i b, i.e. u c - v d = a and u d + v c = b.
         // (consequences of the two definitions and c^2+d^2 != 0; they keep the queries bilinear)
@@ -784,6 +804,120 @@ impl Engine {
             }
         }
         (s, vars)
+    }
+
+    /// Axioms about the real elementary functions, instantiated on the occurring applications and (recursively)
+    /// on the structure of their arguments.  Every formula is a true statement about sin, cos, sinh, cosh, exp,
+    /// ln, atan2 on the reals; the functions themselves stay uninterpreted.  (Listed in DESIGN.md / evidence.)
+    fn libm_axioms(&self, seen: &BTreeSet<u32>, nm: &dyn Fn(u32) -> String) -> String {
+        // an argument is (text, optional node id whose structure can be unfolded further)
+        #[derive(Clone, PartialEq, Eq, PartialOrd, Ord)]
+        enum Fam { Trig, Hyp }
+        let mut out = String::new();
+        let mut done: BTreeSet<(Fam, String)> = BTreeSet::new();
+        let mut work: Vec<(Fam, String, Option<u32>)> = Vec::new();
+        for &i in seen.iter() {
+            match &self.nodes[i as usize] {
+                Node::Fun1(f, a) => match *f {
+                    "sin" | "cos" => work.push((Fam::Trig, nm(*a), Some(*a))),
+                    "sinh" | "cosh" | "exp" => work.push((Fam::Hyp, nm(*a), Some(*a))),
+                    "ln" => {
+                        let r = nm(*a);
+                        out.push_str(&format!("(assert (=> (> {} 0.0) (= (uf_exp (uf_ln {})) {})))\n", r, r, r));
+                        out.push_str(&format!("(assert (=> (= {} 1.0) (= (uf_ln {}) 0.0)))\n", r, r));
+                        out.push_str(&format!("(assert (=> (> {} 1.0) (> (uf_ln {}) 0.0)))\n(assert (=> (and (> {} 0.0) (< {} 1.0)) (< (uf_ln {}) 0.0)))\n", r, r, r, r, r));
+                        work.push((Fam::Hyp, format!("(uf_ln {})", r), None));
+                        // ln(sqrt(q)) = ln(q)/2 and ln(q*q') ... only the square-root link is needed (modulus)
+                        if let Node::Sqrt(q) = &self.nodes[*a as usize] { out.push_str(&format!("(assert (=> (> {} 0.0) (= (* 2.0 (uf_ln {})) (uf_ln {}))))\n", nm(*q), r, nm(*q))); work.push((Fam::Hyp, format!("(uf_ln {})", nm(*q)), None)); }
+                    }
+                    _ => {}
+                },
+                Node::Fun2("atan2", y, x) => {
+                    let (t, ys, xs) = (format!("n{}", i), nm(*y), nm(*x));
+                    let r = format!("r_atan2_{}", i);
+                    out.push_str(&format!("(declare-const {} Real)\n(assert (>= {} 0.0))\n(assert (= (* {} {}) (+ (* {} {}) (* {} {}))))\n", r, r, r, r, xs, xs, ys, ys));
+                    out.push_str(&format!("(assert (= (* {} (uf_cos {})) {}))\n(assert (= (* {} (uf_sin {})) {}))\n", r, t, xs, r, t, ys));
+                    out.push_str(&format!("(assert (and (< (- pi) {}) (<= {} pi)))\n", t, t));
+                    out.push_str(&format!("(assert (=> (> {} 0.0) (and (> {} 0.0) (< {} pi))))\n(assert (=> (< {} 0.0) (and (< {} 0.0) (> {} (- pi)))))\n", ys, t, t, ys, t, t));
+                    out.push_str(&format!("(assert (=> (and (= {} 0.0) (>= {} 0.0)) (= {} 0.0)))\n(assert (=> (and (= {} 0.0) (< {} 0.0)) (= {} pi)))\n", ys, xs, t, ys, xs, t));
+                    out.push_str(&format!("(assert (=> (> {} 0.0) (and (< {} (/ pi 2.0)) (> {} (- (/ pi 2.0))))))\n", xs, t, t));
+                    out.push_str(&format!("(assert (=> (and (= {} 0.0) (> {} 0.0)) (= {} (/ pi 2.0))))\n(assert (=> (and (= {} 0.0) (< {} 0.0)) (= {} (- (/ pi 2.0)))))\n", xs, ys, t, xs, ys, t));
+                    out.push_str(&format!("(assert (=> (and (< {} 0.0) (> {} 0.0)) (> {} (/ pi 2.0))))\n(assert (=> (and (< {} 0.0) (< {} 0.0)) (< {} (- (/ pi 2.0)))))\n", xs, ys, t, xs, ys, t));
+                    work.push((Fam::Trig, t, Some(i)));
+                }
+                _ => {}
+            }
+        }
+        let mut guard = 0;
+        while let Some((fam, u, id)) = work.pop() {
+            guard += 1;
+            if guard > 400 { break; }
+            if !done.insert((fam.clone(), u.clone())) { continue; }
+            let (k1, k2) = if fam == Fam::Trig { ("uf_sin", "uf_cos") } else { ("uf_sinh", "uf_cosh") };
+            let (f1, f2) = (format!("({} {})", k1, u), format!("({} {})", k2, u));
+            if fam == Fam::Trig {
+                out.push_str(&format!("(assert (= (+ (* {} {}) (* {} {})) 1.0))\n", f1, f1, f2, f2));
+            } else {
+                let (e, em) = (format!("(uf_exp {})", u), format!("(uf_exp (- {}))", u));
+                out.push_str(&format!("(assert (= (- (* {} {}) (* {} {})) 1.0))\n(assert (>= {} 1.0))\n", f2, f2, f1, f1, f2));
+                out.push_str(&format!("(assert (> {} 0.0))\n(assert (> {} 0.0))\n(assert (= (* {} {}) 1.0))\n", e, em, e, em));
+                out.push_str(&format!("(assert (= (* 2.0 {}) (+ {} {})))\n(assert (= (* 2.0 {}) (- {} {})))\n", f2, e, em, f1, e, em));
+            }
+            // structure of the argument
+            let id = match id { Some(i) => i, None => continue };
+            let sub = |a: u32| -> (String, Option<u32>) { (nm(a), Some(a)) };
+            match &self.nodes[id as usize] {
+                Node::Const(r) if r.is_zero() => {
+                    out.push_str(&format!("(assert (= {} 0.0))\n(assert (= {} 1.0))\n", f1, f2));
+                    if fam == Fam::Hyp { out.push_str(&format!("(assert (= (uf_exp {}) 1.0))\n", u)); }
+                }
+                Node::Neg(a) => {
+                    let (au, aid) = sub(*a);
+                    out.push_str(&format!("(assert (= {} (- ({} {}))))\n(assert (= {} ({} {})))\n", f1, k1, au, f2, k2, au));
+                    if fam == Fam::Hyp { out.push_str(&format!("(assert (= (* (uf_exp {}) (uf_exp {})) 1.0))\n", u, au)); }
+                    work.push((fam.clone(), au, aid));
+                }
+                Node::Add(a, b) | Node::Sub(a, b) => {
+                    let minus = matches!(&self.nodes[id as usize], Node::Sub(..));
+                    let ((au, aid), (bu, bid)) = (sub(*a), sub(*b));
+                    let (sa, ca, sb, cb) = (format!("({} {})", k1, au), format!("({} {})", k2, au), format!("({} {})", k1, bu), format!("({} {})", k2, bu));
+                    // sin(a+-b) = sa cb +- ca sb ; cos(a+-b) = ca cb -+ sa sb ; sinh/cosh likewise with + in cosh
+                    let sg = if minus { "-" } else { "+" };
+                    let cg = if fam == Fam::Trig { if minus { "+" } else { "-" } } else { if minus { "-" } else { "+" } };
+                    out.push_str(&format!("(assert (= {} ({} (* {} {}) (* {} {}))))\n", f1, sg, sa, cb, ca, sb));
+                    out.push_str(&format!("(assert (= {} ({} (* {} {}) (* {} {}))))\n", f2, cg, ca, cb, sa, sb));
+                    if fam == Fam::Hyp {
+                        if minus { out.push_str(&format!("(assert (= (* (uf_exp {}) (uf_exp {})) (uf_exp {})))\n", u, bu, au)); }
+                        else { out.push_str(&format!("(assert (= (uf_exp {}) (* (uf_exp {}) (uf_exp {}))))\n", u, au, bu)); }
+                    }
+                    work.push((fam.clone(), au, aid));
+                    work.push((fam.clone(), bu, bid));
+                }
+                Node::Mul(a, b) => {
+                    // constant * t  for the constants 1/2, 2, -1
+                    let (c, t) = if let Node::Const(r) = &self.nodes[*a as usize] { (Some(*r), *b) } else if let Node::Const(r) = &self.nodes[*b as usize] { (Some(*r), *a) } else { (None, *a) };
+                    if let Some(c) = c {
+                        let (tu, tid) = sub(t);
+                        let (st, ct) = (format!("({} {})", k1, tu), format!("({} {})", k2, tu));
+                        if c == Rat::new(1, 2).unwrap() && fam == Fam::Trig {
+                            out.push_str(&format!("(assert (= (* 2.0 (* {} {})) (+ 1.0 {})))\n(assert (= (* 2.0 (* {} {})) (- 1.0 {})))\n(assert (= (* 2.0 (* {} {})) {}))\n", f2, f2, ct, f1, f1, ct, f1, f2, st));
+                            // for an angle in (-pi, pi]: cos(t/2) >= 0 and sin(t/2) has the sign of t
+                            out.push_str(&format!("(assert (=> (and (< (- pi) {}) (<= {} pi)) (and (>= {} 0.0) (=> (>= {} 0.0) (>= {} 0.0)) (=> (<= {} 0.0) (<= {} 0.0)))))\n", tu, tu, f2, tu, f1, tu, f1));
+                            work.push((fam.clone(), tu, tid));
+                        } else if c == Rat::int(2) {
+                            let cg = if fam == Fam::Trig { "-" } else { "+" };
+                            out.push_str(&format!("(assert (= {} (* 2.0 (* {} {}))))\n(assert (= {} ({} (* {} {}) (* {} {}))))\n", f1, st, ct, f2, cg, ct, ct, st, st));
+                            work.push((fam.clone(), tu, tid));
+                        } else if c == Rat::int(-1) {
+                            out.push_str(&format!("(assert (= {} (- {})))\n(assert (= {} {}))\n", f1, st, f2, ct));
+                            work.push((fam.clone(), tu, tid));
+                        }
+                    }
+                }
+                _ => {}
+            }
+        }
+        out
     }
 
     fn smt_b(&self, b: &B, nm: &dyn Fn(u32) -> String) -> String {
